@@ -16,4 +16,5 @@ import Rtcp.Props.Setters
 import Rtcp.Props.Calls
 import Rtcp.Props.EndToEnd
 import Rtcp.Props.Fast
+import Rtcp.Props.FastWrite
 import Rtcp.Props.Pins
